@@ -46,6 +46,35 @@ def rule_run_protocol(ctx):
     protocol.history_table(ctx, "O20.run", 2)
 
 
+DOCUMENTED_FIELD_TYPES = ["Choice", "Constant", "DateTime", "Decimal", "Integer", "Pattern", "RegEx", "Text"]
+DOCUMENTED_CHECK_TYPES = ["DistinctCount", "IsUnique"]
+
+
+def rule_builtin_types_are_registered(ctx, rule="O20.2"):
+    """The name-to-class maps are filled from ``base.__subclasses__()``, which lists DIRECT subclasses only: every
+    documented field type and check type must therefore be a class deriving directly from its abstract base."""
+    model = ctx.model
+    for base_name, suffix, documented in (("cutplace.fields.AbstractFieldFormat", "FieldFormat", DOCUMENTED_FIELD_TYPES),
+                                          ("cutplace.checks.AbstractCheck", "Check", DOCUMENTED_CHECK_TYPES)):
+        base = model.cls(base_name)
+        direct = {cls.name for cls in model.subclasses(base, direct=True) if cls.module.name.startswith("cutplace.")}
+        for type_name in documented:
+            what = "type %s resolves to a registered class" % type_name
+            class_name = type_name + suffix
+            if class_name in direct:
+                ctx.res.ok(rule, what, True)
+                continue
+            anywhere = [cls for cls in model.subclasses(base) if cls.name == class_name]
+            if anywhere:
+                ctx.res.fail(rule, what, "%s:%s:not-direct:%s" % (base_name.replace("cutplace.", ""), rule, class_name),
+                             "%s:%d (%s)" % (anywhere[0].module.relpath, anywhere[0].node.lineno, class_name),
+                             "%s does not derive directly from %s: __subclasses__() does not list it, so every CID that declares a %s "
+                             "%s is rejected with 'cannot find class'" % (class_name, base.name, type_name, "field" if suffix == "FieldFormat" else "check"))
+            else:
+                ctx.res.fail(rule, what, "%s:%s:missing:%s" % (base_name.replace("cutplace.", ""), rule, class_name),
+                             base.module.relpath, "no class %s: the documented type %s does not exist" % (class_name, type_name))
+
+
 def rule_class_resolution(ctx):
     model = ctx.model
     ctx.res.minimum("O20.2", 4)
@@ -92,6 +121,7 @@ def rule_class_resolution(ctx):
         return ("map of " + suffix, (names, targets_ok, bool(asked)), (expected, True, True))
 
     decide(ctx, "O20.2", "name-to-class map from __subclasses__()", CID + "._create_name_to_class_map", map_cell, min_cells=2)
+    rule_builtin_types_are_registered(ctx, "O20.2")
 
     # (b) look-up: last dotted part + suffix; unknown -> InterfaceError
     def lookup_cell(ch):
